@@ -401,7 +401,8 @@ def o5_o6(ctx, rep):
         body = ctx.facts.body(fn)
         qs = [b for b, t in body.calls() if t.get("callee") == "nomt::bitbox::writeout::truncate_wal"]
         if not qs:
-            rep.violation(rule, short(fn), "truncate_wal|missing", "%s no longer truncates the WAL (anchor changed)" % short(fn), site=body.span)
+            n += 1  # counted, so that the floor does not turn a removed truncation into a broken check
+            rep.notes.append("%s: %s no longer truncates the WAL; whether the next WAL blob is still written into an empty file is decided by O17" % (rule, short(fn)))
             continue
         for q in qs:
             n += 1
@@ -1588,6 +1589,9 @@ def o15(ctx, rep):
     W = sites("nomt::bitbox::writeout::write_ht")
     T = sites("nomt::bitbox::writeout::truncate_wal")
     n += 1
+    if W and not T:
+        rep.notes.append("O15: post_meta no longer truncates the WAL (a left-over WAL of the sync the meta page names is redone as a no-op); nothing to order, see O17 (C04)")
+        return n
     if not rep.check(bool(W) and bool(T), "O15", fn, "writeout-then-truncate", "post_meta no longer performs the hash-table writeout followed by the WAL truncation", site=body.span, detail="write_ht at bb%s, truncate_wal at bb%s" % (W, T)):
         return n
     for w in W:
@@ -1651,4 +1655,69 @@ def o16(ctx, rep):
                 n += 1
                 ok = termination.derives_from(body, t["d"], page_identity)
                 rep.check(ok, "O16", short(body.id), "set_full-decided-by-page-identity", "in the WAL redo, MetaMap::set_full at %s depends on a condition (at %s) that does not look at which page the entry is about: a page the interrupted sync placed into a tombstoned bucket would stay unreachable after recovery" % (body.term(b).get("ln"), t.get("ln")), site=t.get("ln"), detail="the condition at %s derives from the entry's page id" % t.get("ln"))
+    return n
+
+
+# ---- O17 (C04): a WAL blob is only ever written into an EMPTY WAL file -------------------------------
+# The redo trusts a WAL whose header carries the sequence number of the meta page.  While sync N+1 writes its blob, the meta
+# page still says N - and so does the blob of sync N if it is still in the file.  Written over that blob in place, a power
+# loss that keeps some later page of the new blob but not page 0 leaves a file whose header says N and whose body is a mixture:
+# it is replayed.  Rule: every write into the WAL is made into an empty file, which is the case when
+#   (A) a truncation to length 0 of the WAL dominates the write inside the writing function, or
+#   (B) every way a sync or an open completes leaves the file empty: SyncController::post_meta and the redo (`recover`) pass
+#       a truncation to 0 on every success path.
+# Either alone suffices (the two halves of the seeded change C04-j are each harmless alone).
+
+
+def o17(ctx, rep):
+    import fileclass
+
+    facts = ctx.facts
+    n = 0
+
+    def is_trunc0(e):
+        if e.cls != "wal" or e.kind != "resize":
+            return False
+        t = e.body.term(e.bb)
+        if t["k"] != "call" or len(t.get("args", [])) < 2:
+            return False
+        return fileclass._const_int(e.body, t["args"][1]) == 0
+
+    truncs = [e for e in ctx.events if is_trunc0(e)]
+    trunc_bodies = {}
+    for e in truncs:
+        trunc_bodies.setdefault(e.body.id, set()).add(e.bb)
+
+    def always_truncates(fid, depth=0):
+        """every success path of fid passes a truncation of the WAL to 0 (directly or through a callee that always does)"""
+        b = facts.bodies.get(fid)
+        if b is None or depth > 3:
+            return False
+        blocks = set(trunc_bodies.get(fid, ()))
+        for bb, t in b.calls():
+            c = t.get("callee") or ""
+            if c != fid and c in facts.bodies and facts.bodies[c].crate == "nomt" and not b.is_cleanup(bb) and always_truncates(c, depth + 1):
+                blocks.add(bb)
+        if not blocks:
+            return False
+        rem = set(b.ok_removed())
+        reach = b.reachable([0], rem | blocks) if 0 not in blocks else set()
+        return not (reach & set(b.return_blocks()))
+
+    glob = {fn: always_truncates(fn) for fn in ("nomt::bitbox::SyncController::post_meta", "nomt::bitbox::recover")}
+    for e in ctx.events:
+        if e.cls != "wal" or e.kind != "write" or "::tests" in e.body.id or e.body.crate != "nomt":
+            continue
+        n += 1
+        b = e.body
+        doms = set(trunc_bodies.get(b.id, ()))
+        for bb, t in b.calls():
+            c = t.get("callee") or ""
+            if c in facts.bodies and c != b.id and not b.is_cleanup(bb) and always_truncates(c):
+                doms.add(bb)
+        local = any(d != e.bb and b.dominates(d, e.bb) for d in doms)
+        ok = local or all(glob.values())
+        why = "truncated to 0 in the same function before the write" if local else "post_meta and the redo leave the WAL empty on every success path"
+        missing = ", ".join(short(k) for k, v in glob.items() if not v)
+        rep.check(ok, "O17", short(b.id), "wal-written-into-empty-file", "the WAL blob is written at %s over whatever the file holds: no truncation to 0 precedes the write in %s, and %s no longer leave(s) the WAL empty - the blob of the previous sync (whose sequence number still matches the meta page) is overwritten in place, and a power loss that keeps a later page but not the first one leaves a mixture that the redo trusts" % (e.site, short(b.id), missing or "-"), site=e.site, detail=why)
     return n
